@@ -9,7 +9,7 @@ import (
 func init() {
 	register(&Check{
 		ID: "C11", Level: "exploration", QuickSecs: 150, ThoroughSecs: 1200,
-		Rule:        "skeletons over {'a',.,&{},!{},#{},A} x {?,*,&,!} x seq/choice up to N nodes (quick 4, thorough 5) under a rule-level action, second rule A with a display name and its own action; a rule attribute family (three rules with blocks, every assignment of display names x both definition orders of the called rules x 3 call shapes: in sequence, as alternatives erring at the same position and depth, under a predicate and again); every fault script giving each block one of {ok, error e<id>, error with a message shared by all blocks, panic(error), panic(string)} with at most 3 faulting blocks, for code predicates both the matching and the failing result; inputs over {a,b} up to L=2; Recover(true)/Recover(false) x filename empty/non-empty; 2 generation flag sets; plus left-recursive rules (direct, tower, indirect pair) generated with -support-left-recursion with the same fault scripts. Compared with the reference: value, complete error list (text incl. file:line:col (offset): rule prefix, order, de-duplication by message), dynamic type errList of *parserError, Inner pointer-identical to the scripted error, panic containment vs propagation. Non-trivial = at least two recorded errors or a panic. Plus the cross family (cross.go, bodies <= 3 nodes x 16 flag sets, every block in turn failing, invalid-byte inputs, a terminal-only rule with display name).",
+		Rule:        "skeletons over {'a',.,&{},!{},#{},A} x {?,*,&,!} x seq/choice up to N nodes (quick 4, thorough 5) under a rule-level action, second rule A with a display name and its own action; a rule attribute family (three rules with blocks, every assignment of display names (plain ones, and names with percent signs, quotes, a backslash, a non-ASCII rune) x both definition orders of the called rules x 3 call shapes: in sequence, as alternatives erring at the same position and depth, under a predicate and again); every fault script giving each block one of {ok, error e<id>, error with a message shared by all blocks, panic(error), panic(string)} with at most 3 faulting blocks, for code predicates both the matching and the failing result; inputs over {a,b} up to L=2; Recover(true)/Recover(false) x filename empty/non-empty; 2 generation flag sets; plus left-recursive rules (direct, tower, indirect pair) generated with -support-left-recursion with the same fault scripts. Compared with the reference: value, complete error list (text incl. file:line:col (offset): rule prefix, order, de-duplication by message), dynamic type errList of *parserError, Inner pointer-identical to the scripted error, panic containment vs propagation. Non-trivial = at least two recorded errors or a panic. Plus the cross family (cross.go, bodies <= 3 nodes x 16 flag sets, every block in turn failing, invalid-byte inputs, a terminal-only rule with display name).",
 		Assumptions: []string{"E1 loader", "scripted probes as code blocks"},
 		Run:         runC11,
 	})
@@ -106,15 +106,24 @@ func runC11(c *ShardCtx) {
 	// rule attributes: every assignment of display names to three rules (each with blocks that
 	// can fail) x both definition orders of the called rules: the prefix names the rule (display
 	// name if given) the error arose in, whatever was defined before it
-	for mask := 0; mask < 8; mask++ {
+	// (names: plain ones, and names holding what a careless emitter or formatter trips over - percent
+	// signs, quotes, a backslash, a non-ASCII rune, a trailing percent sign)
+	for mask := 0; mask < 16; mask++ {
 		for order := 0; order < 2; order++ {
+			if mask >= 8 && mask&7 == 0 {
+				continue
+			}
 			idx++
 			if !c.Mine(idx) {
 				continue
 			}
+			names := map[int]string{1: "start", 2: "the A", 4: "a B"}
+			if mask >= 8 {
+				names = map[int]string{1: "st%art %v", 2: "the A %s 100%", 4: "a \"B\" \\ %d%% \u00e9"}
+			}
 			disp := func(bit int, d string) string {
 				if mask&bit != 0 {
-					return d
+					return names[bit]
 				}
 				return ""
 			}
@@ -194,6 +203,7 @@ func runC11(c *ShardCtx) {
 		}
 		historyPairs(c, b, text, gen, calls)
 	}
+	historyFamily(c, &idx, gens2)
 	// cross family (cross.go): every construct x every flag set, every block in turn failing
 	{
 		if !runCross(c, &idx, &crossSpec{maxSize: 3, gens: gens16, inputs: crossInputsSmall, opts: []rtapi.RunOpts{{MaxExpr: 600, Filename: "f.txt"}, {MaxExpr: 600, NoRecover: true}},
